@@ -93,6 +93,8 @@ type simWorld struct {
 
 	onPeerDown func(*simPeer, string)
 	fam        any
+	bestS       *bestStream
+	preShutdown []func()
 	bfdAllowed map[int]map[uint8]bool
 	bfdSeen    map[int]int
 	finalDump  string
@@ -540,6 +542,9 @@ func (w *simWorld) runPhase(impl *familyImpl, pi int, ph *Phase) {
 
 func (w *simWorld) shutdown(impl *familyImpl) {
 	w.logf("shutdown %s", w.sc.Final)
+	for _, f := range w.preShutdown {
+		f()
+	}
 	before := len(w.net.openServerConns())
 	_ = before
 	switch w.sc.Final {
